@@ -377,6 +377,9 @@ def compare_groups(ga, gb, keymap=None, tol=FLOAT_TOL, skip=(), what=GROUP_FLOAT
         for k in set(da) | set(db):
             if not feq(da.get(k, 0.0), db.get(k, 0.0), tol):
                 diffs.append(("det", k, da.get(k), db.get(k)))
+            elif (k in da) != (k in db):
+                # a listed determinant of value 0.00 is still a row of the output
+                diffs.append(("det-listed", k, da.get(k), db.get(k)))
     return diffs
 
 
